@@ -16,6 +16,7 @@ import traceback
 from io import StringIO
 
 from ._DocumentTemplate import InstanceDict
+from ._DocumentTemplate import join_unicode
 from ._DocumentTemplate import render_blocks
 from .DT_Return import DTReturn
 from .DT_Util import ParseError
@@ -183,8 +184,10 @@ class Try:
             if (self.elseBlock is None):
                 return result
             else:
-                return result + render_blocks(self.elseBlock, md,
-                                              encoding=self.encoding)
+                return join_unicode(
+                    [result, render_blocks(self.elseBlock, md,
+                                           encoding=self.encoding)],
+                    encoding=self.encoding)
 
     def render_try_finally(self, md):
         result = ''
@@ -193,8 +196,10 @@ class Try:
             result = render_blocks(self.section, md, encoding=self.encoding)
         # Then handle finally block
         finally:
-            result = result + render_blocks(self.finallyBlock, md,
-                                            encoding=self.encoding)
+            result = join_unicode(
+                [result, render_blocks(self.finallyBlock, md,
+                                       encoding=self.encoding)],
+                encoding=self.encoding)
         return result
 
     def find_handler(self, exception):
